@@ -460,7 +460,42 @@ def eval_farcost(case):
     return out
 
 
-EVALS = {"interop": eval_interop, "fresh": eval_fresh, "identify": eval_identify, "context": eval_context, "farcost": eval_farcost}
+def eval_salt_cost(case):
+    """bcrypt family: the salt argument of the libpass hashers is a complete bcrypt salt, which carries a cost of its own.
+    Whatever cost the hasher object was built with, the string that comes back states the cost the digest was computed
+    with: it verifies under both APIs, and the update check is True exactly when that cost is not the hasher's"""
+    import re
+
+    fmt, p, salt, R, SC = case["fmt"], case["password"], case["salt"], case["rounds"], case["salt_cost"]
+    out = []
+    lp = lp_hasher(fmt, R)
+    try:
+        h = lp.hash(p, salt=lp_salt_arg(fmt, salt, SC))
+    except (ValueError, TypeError):
+        return out  # refusing a salt of another cost is a clean answer
+    except Exception as e:  # noqa: BLE001
+        return [(f"C20|{fmt}|salt_cost:hash_raises:{_exc(e)}", f"libpass {fmt}(rounds={R}).hash(salt of cost {SC}) raised {e!r}")]
+    m = re.search(r"(?:\$2[aby]\$(\d\d)\$|[,$]r=(\d+)\$)", h)
+    stated = int(m.group(1) or m.group(2)) if m else None
+    for side in ("passlib", "libpass"):
+        r = _verify(side, fmt, R, h, p)
+        if r[0] == "exc" or r[1] is not True:
+            out.append((f"C20|{fmt}|salt_cost:{side}_verify:own_password_rejected",
+                        f"libpass {fmt}(rounds={R}).hash({p!r}, salt of cost {SC}) = {h!r} (states cost {stated}) does not verify under {side}: {r[1]!r}"))
+        r = _verify(side, fmt, R, h, p + "x")
+        if r[0] == "ok" and r[1] is not False:
+            out.append((f"C20|{fmt}|salt_cost:{side}_verify:wrong_password_accepted", f"{side} verifies a wrong password against {h!r}"))
+    try:
+        nu = lp.needs_update(h)
+        if stated is not None and bool(nu) != (stated != R):
+            out.append((f"C20|{fmt}|salt_cost:needs_update:{'true' if nu else 'false'}",
+                        f"libpass {fmt}(rounds={R}).needs_update({h!r}) = {nu!r}; the string states cost {stated}"))
+    except Exception as e:  # noqa: BLE001
+        out.append((f"C20|{fmt}|salt_cost:needs_update:raises:{_exc(e)}", f"needs_update({h!r}) raised {e!r}"))
+    return out
+
+
+EVALS = {"salt_cost": eval_salt_cost, "interop": eval_interop, "fresh": eval_fresh, "identify": eval_identify, "context": eval_context, "farcost": eval_farcost}
 
 
 def replay(case):
@@ -586,6 +621,9 @@ def work(task):
             acc.axis("identify_scheme", case["scheme"])
         elif part == "farcost":
             acc.cls(part, case["fmt"], case["cost"])
+        elif part == "salt_cost":
+            acc.cls(part, case["fmt"], case["rounds"], case["salt_cost"], case["salt"][:2])
+            acc.axis("salt_cost_vs_hasher", "equal" if case["rounds"] == case["salt_cost"] else "lower" if case["salt_cost"] < case["rounds"] else "higher")
         else:
             acc.cls(part, ">".join(case["schemes"]), case.get("derive"))
             acc.axis("context_size", len(case["schemes"]))
@@ -633,6 +671,11 @@ def run(ctx):
                 for fmt in FORMATS:
                     cases.append({"part": "identify", "fmt": fmt, "scheme": name, "hash": h, "settings": kw, "password": PW, "n": i})
                     n_id += 1
+    for fmt in ("bcrypt", "bcrypt_sha256"):
+        for R in (4, 5, 6):
+            for SC in (4, 5, 6):
+                for v in range(2):
+                    cases.append({"part": "salt_cost", "fmt": fmt, "password": PW, "salt": HS.make_salt("bcrypt", 22, seed, v), "rounds": R, "salt_cost": SC})
     n_ctx = 0
     for n in (1, 2, 3):
         for lst in itertools.permutations(FORMATS, n):
